@@ -247,3 +247,37 @@ class Check:
 
 def repo_file_hashes(rel_paths):
     return {p: file_sha(os.path.join(REPO, p)) for p in rel_paths}
+
+
+# ---------------------------------------------------------------------------------------------- parallel map
+_PMAP_FN = None
+
+
+def _pmap_call(i):
+    import traceback as _tb
+    try:
+        return ("ok", _PMAP_FN(i))
+    except BaseException as e:  # noqa
+        return ("err", f"{type(e).__name__}: {e}\n{_tb.format_exc()}")
+
+
+def pmap(fn, n_items, procs=None):
+    """fork-based parallel map over range(n_items); `fn` and its closure are inherited by the workers (no pickling of
+    tasks), only results are pickled back.  A worker exception aborts the check (exit 3), it is never a verdict."""
+    global _PMAP_FN
+    import multiprocessing as mp
+    procs = procs or int(os.environ.get("VERIF_PROCS", "14"))
+    if n_items == 0:
+        return []
+    if procs <= 1 or n_items == 1:
+        return [fn(i) for i in range(n_items)]
+    _PMAP_FN = fn
+    ctx = mp.get_context("fork")
+    with ctx.Pool(min(procs, n_items)) as pool:
+        res = pool.map(_pmap_call, range(n_items), chunksize=1)
+    out = []
+    for tag, val in res:
+        if tag == "err":
+            raise RuntimeError("worker failed: " + val)
+        out.append(val)
+    return out
